@@ -49,7 +49,7 @@
 
 From Coq Require Import PrimFloat.
 From Coq Require Import ZArith List Bool Reals Lra Permutation Sorted.
-From BZ Require Import Base.Ops Gen.Point Gen.BBox Gen.Line Gen.Quad Gen.Cubic Hand.Bounds Hand.Shoelace Hand.Winding Proofs.C05 Proofs.C11 Proofs.C11curves.
+From BZ Require Import Base.Ops Gen.Point Gen.BBox Gen.Line Gen.Quad Gen.Cubic Hand.Bounds Hand.Shoelace Hand.Winding Proofs.C05 Proofs.C11 Proofs.C11curves Proofs.C11box.
 Import ListNotations.
 Open Scope R_scope.
 
@@ -170,6 +170,30 @@ Proof. exact lens_inside. Qed.
 Theorem C11_lens_winding :
   windingNumberOfPoint ROps lens (P 1 (15 / 4)) = Some 1%Z.
 Proof. exact lens_winding. Qed.
+Theorem C11_crossing_in_padded_box :
+  forall (segs : list (segment R)) (b0 : bbox R) (s : segment R) (t : R), path_box ROps segs = Some b0 -> In s segs -> 0 <= t <= 1 -> px (bl b0) - C02.sigma (C03.seg_ext px s) <= px (seg_point s t) <= px (tr b0) + C02.sigma (C03.seg_ext px s).
+Proof. exact crossing_in_padded_box. Qed.
+Theorem C11_mixed_query_sized_is_between :
+  forall srs b0 x y, mixed_query_sized srs b0 x y -> mixed_query_between srs b0 x y.
+Proof. exact mixed_query_sized_is_between. Qed.
+Theorem C11_mixed_dict_counts_sized :
+  forall srs b0 x y, mixed_query_sized srs b0 x y -> length (collect ROps (map fst srs) (hray (px (bl b0) - 10) x y)) = count_if (left_c x) srs /\ length (collect ROps (map fst srs) (hray (px (tr b0) + 10) x y)) = count_if (right_c x) srs.
+Proof. exact mixed_dict_counts_sized. Qed.
+Theorem C11_mixed_winding_number_sized :
+  forall srs b0 x y, mixed_query_sized srs b0 x y -> windingNumberOfPoint ROps (map fst srs) (P x y) = Some (Z.abs (signed_if (left_c x) srs)) /\ Z.abs (signed_if (left_c x) srs) = Z.abs (signed_if (right_c x) srs).
+Proof. exact mixed_winding_number_sized. Qed.
+Theorem C11_mixed_even_odd_sized :
+  forall srs b0 x y, mixed_query_sized srs b0 x y -> pointIsInside ROps (map fst srs) (P x y) = Some (Nat.odd (count_if (left_c x) srs)) /\ Nat.odd (count_if (left_c x) srs) = Nat.odd (count_if (right_c x) srs).
+Proof. exact mixed_even_odd_sized. Qed.
+Theorem C11_polygon_mixed_query_sized :
+  forall ls b0 x y, polygon_query ls b0 x y -> mixed_query_sized (polygon_xpath y ls) b0 x y.
+Proof. exact polygon_mixed_query_sized. Qed.
+Theorem C11_polygon_even_odd_via_sized :
+  forall ls b0 x y, polygon_query ls b0 x y -> pointIsInside ROps (map SLine ls) (P x y) = Some (Nat.odd (length (filter (left_of x y) ls))) /\ Nat.odd (length (filter (left_of x y) ls)) = Nat.odd (length (filter (right_of x y) ls)).
+Proof. exact polygon_even_odd_via_sized. Qed.
+Theorem C11_lens_query_sized :
+  mixed_query_sized lens_x lens_box 1 (15 / 4).
+Proof. exact lens_query_sized. Qed.
 
 Print Assumptions C11_abs_sum_signs_parity.
 Print Assumptions C11_winding_sum_parity_any.
@@ -210,3 +234,11 @@ Print Assumptions C11_dD_at_4_balance.
 Print Assumptions C11_lens_query.
 Print Assumptions C11_lens_inside.
 Print Assumptions C11_lens_winding.
+Print Assumptions C11_crossing_in_padded_box.
+Print Assumptions C11_mixed_query_sized_is_between.
+Print Assumptions C11_mixed_dict_counts_sized.
+Print Assumptions C11_mixed_winding_number_sized.
+Print Assumptions C11_mixed_even_odd_sized.
+Print Assumptions C11_polygon_mixed_query_sized.
+Print Assumptions C11_polygon_even_odd_via_sized.
+Print Assumptions C11_lens_query_sized.
